@@ -581,8 +581,10 @@ kf_read(void * c, char * buf, size_t size)
 
 	(void)c;
 	if (KF.err_after >= 0 && (long)KF.pos >= KF.err_after) {
+		static const int errs[] = { EIO, EINTR, EAGAIN, EIO, EINTR };
+
 		R->cnt[N_F_STREAM_ERR]++;
-		errno = EIO;
+		errno = errs[((size_t)KF.err_after + KF.n) % 5];	/* (an interrupted read is an error for stdio like any other) */
 		return (-1);
 	}
 	if (n > size)
